@@ -19,6 +19,7 @@ CONSTANTS Sizes,            \* set of <<cols, rows>>
           Resizes(_),       \* Term -> set of <<cols, rows>> to resize to
           MaxDepth,         \* number of calls after the fill
           Emit,             \* print every transition as a replayable behaviour
+          ExcuseKnown,      \* C11: states in the two known-finding classes are excused (FALSE only in MC_DumpKnown)
           CheckDump         \* also check C11 (dump / restore / probes) in every state reached
 
 VARIABLES vt,     \* the Vt
@@ -51,7 +52,7 @@ DumpProbes ==
     <<97, 98, 99>>, <<13, 10>>,                                  \* insert mode, new-line mode
     <<109>>, <<59, 53, 72>>, <<27, 92>> }                        \* the rest of a cut sequence
 DumpOK(v) ==
-  \/ DumpClasses(v) # {}
+  \/ (ExcuseKnown /\ DumpClasses(v) # {})
   \/ LET rs == Restored(v) IN
      /\ ObsEq(v, rs)
      /\ \A p \in DumpProbes : ObsEq(FeedStr(v, p).vt, FeedStr(rs, p).vt)
